@@ -5,6 +5,8 @@ import (
 	"errors"
 	"fmt"
 	"go/format"
+	"go/scanner"
+	"go/token"
 	"html"
 	"io"
 	"strings"
@@ -765,7 +767,7 @@ func (se ScriptElement) Write(w io.Writer, indent int) error {
 		if isWhitespace(c.GoCode.Expression.Value) {
 			c.GoCode.Expression.Value = ""
 		}
-		if err := writeStrings(w, `{{ `, c.GoCode.Expression.Value, ` }}`, string(c.GoCode.TrailingSpace)); err != nil {
+		if err := writeStrings(w, `{{ `, c.GoCode.Expression.Value, closeExpression(c.GoCode.Expression.Value, 0, `}}`), string(c.GoCode.TrailingSpace)); err != nil {
 			return err
 		}
 	}
@@ -872,7 +874,7 @@ type BoolExpressionAttribute struct {
 }
 
 func (bea BoolExpressionAttribute) String() string {
-	return bea.Name + `?={ ` + bea.Expression.Value + ` }`
+	return bea.Name + `?={ ` + bea.Expression.Value + closeExpression(bea.Expression.Value, 0, `}`)
 }
 
 func (bea BoolExpressionAttribute) Write(w io.Writer, indent int) error {
@@ -924,7 +926,7 @@ func (ea ExpressionAttribute) formatExpression() (exp []string) {
 func (ea ExpressionAttribute) Write(w io.Writer, indent int) (err error) {
 	lines := ea.formatExpression()
 	if len(lines) == 1 {
-		return writeIndent(w, indent, ea.Name, `={ `, lines[0], ` }`)
+		return writeIndent(w, indent, ea.Name, `={ `, lines[0], closeExpression(lines[0], indent, `}`))
 	}
 
 	if err = writeIndent(w, indent, ea.Name, "={\n"); err != nil {
@@ -1271,6 +1273,39 @@ func (gc GoCode) Trailing() TrailingSpace {
 
 func (gc GoCode) IsNode() bool { return true }
 
+// endsWithLineComment reports whether Go code ends with a // comment, which would swallow
+// anything written after it on the same line.
+func endsWithLineComment(src string) bool {
+	var s scanner.Scanner
+	fset := token.NewFileSet()
+	file := fset.AddFile("", fset.Base(), len(src))
+	s.Init(file, []byte(src), nil, scanner.ScanComments)
+	last := ""
+	for {
+		_, tok, lit := s.Scan()
+		if tok == token.EOF {
+			break
+		}
+		if tok == token.SEMICOLON && lit == "\n" {
+			continue
+		}
+		last = ""
+		if tok == token.COMMENT {
+			last = lit
+		}
+	}
+	return strings.HasPrefix(last, "//")
+}
+
+// closeExpression returns the text that ends an expression written as `{ value }`: the closing
+// brace goes on its own line when the value ends with a line comment.
+func closeExpression(value string, indent int, closer string) string {
+	if endsWithLineComment(value) {
+		return "\n" + strings.Repeat("\t", indent) + closer
+	}
+	return " " + closer
+}
+
 // formatted returns the gofmt-formatted Go code, or the code as written if it cannot be formatted.
 func (gc GoCode) formatted() []byte {
 	if isWhitespace(gc.Expression.Value) {
@@ -1292,7 +1327,7 @@ func (gc GoCode) spansLines() bool {
 func (gc GoCode) Write(w io.Writer, indent int) error {
 	source := gc.formatted()
 	if !gc.spansLines() {
-		return writeIndent(w, indent, `{{ `, string(source), ` }}`)
+		return writeIndent(w, indent, `{{ `, string(source), closeExpression(string(source), indent, `}}`))
 	}
 	if err := writeIndent(w, indent, "{{"+string(source)+"\n"); err != nil {
 		return err
@@ -1318,7 +1353,7 @@ func (se StringExpression) Write(w io.Writer, indent int) error {
 	if isWhitespace(se.Expression.Value) {
 		se.Expression.Value = ""
 	}
-	return writeIndent(w, indent, `{ `, se.Expression.Value, ` }`)
+	return writeIndent(w, indent, `{ `, se.Expression.Value, closeExpression(se.Expression.Value, indent, `}`))
 }
 
 // ScriptTemplate is a script block.
